@@ -138,23 +138,35 @@ func stepsFrom(a alphabet, depth int, used, live map[string]bool, liveOrder []st
 	var out []Step
 	// the first unused user name only: user names are interchangeable until they are registered
 	// (targets may name any of them at any time), so they are registered in the order u1, u2, u3
-	for _, u := range a.users {
-		if used[u] {
-			continue
-		}
+	forms := func(u string) {
 		out = append(out, Step{Kind: "register", Name: u})
 		for _, t := range a.targets {
 			out = append(out, Step{Kind: "register", Name: u, Before: t})
 			out = append(out, Step{Kind: "register", Name: u, After: t})
 		}
 		if a.doubleDepth == 0 || depth < a.doubleDepth {
-			for _, x := range a.double {
-				for _, y := range a.double {
-					out = append(out, Step{Kind: "register", Name: u, Before: x, After: y})
+			for ix, x := range a.double {
+				for iy, y := range a.double {
+					s := Step{Kind: "register", Name: u, Before: x, After: y}
+					if (ix+iy)%2 == 1 {
+						s.Chain = "AB" // chained After(y).Before(x)
+					}
+					out = append(out, s)
 				}
 			}
 		}
-		break
+	}
+	for _, u := range a.users {
+		if !used[u] {
+			forms(u)
+			break
+		}
+	}
+	// names that were removed are free again (users and built-ins)
+	for _, u := range append(append([]string{}, a.users...), a.victims...) {
+		if used[u] && !live[u] {
+			forms(u)
+		}
 	}
 	for _, n := range liveOrder {
 		isVictim := false
@@ -278,6 +290,13 @@ func randomHistory(r *lib.Rng, pipeline string, skipTx bool, builtins []Step, mo
 			for _, e := range ref.live {
 				live = append(live, e.Name)
 			}
+			// removed names (users and built-ins) may be registered again
+			var freed []string
+			for _, u := range append(append([]string{}, users...), bnames...) {
+				if ref.used[u] && ref.find(u) < 0 {
+					freed = append(freed, u)
+				}
+			}
 			k := r.Intn(10)
 			switch {
 			case mode == "edge" && r.Chance(1, 3):
@@ -296,19 +315,29 @@ func randomHistory(r *lib.Rng, pipeline string, skipTx bool, builtins []Step, mo
 				case 5:
 					s = Step{Kind: "register", Name: lib.Pick(r, users), After: target(), Tx: true}
 				}
-			case k < 6 && len(fresh) > 0:
-				s = Step{Kind: "register", Name: fresh[0]}
-				if r.Chance(1, 4) {
-					s.Name = lib.Pick(r, fresh)
+			case k < 6 && (len(fresh) > 0 || len(freed) > 0):
+				switch {
+				case len(freed) > 0 && (len(fresh) == 0 || r.Chance(1, 2)):
+					s = Step{Kind: "register", Name: lib.Pick(r, freed)} // re-registration after Remove
+				case r.Chance(1, 4):
+					s = Step{Kind: "register", Name: lib.Pick(r, fresh)}
+				default:
+					s = Step{Kind: "register", Name: fresh[0]}
 				}
-				switch r.Intn(8) {
+				switch r.Intn(9) {
 				case 0:
 				case 1, 2, 3:
 					s.Before = target()
-				case 4, 5, 6:
+				case 4, 5:
 					s.After = target()
-				case 7:
+				default: // two-sided, chained in either order
 					s.Before, s.After = target(), target()
+					if r.Bool() {
+						s.Chain = "AB"
+					}
+				}
+				if r.Chance(1, 10) {
+					s.Tx = true // p.Match(enableTransaction) first in the chain
 				}
 			case k < 8 && len(live) > 0:
 				s = Step{Kind: "replace", Name: lib.Pick(r, live)}
